@@ -132,6 +132,7 @@ Inductive err :=
 | ERenderNonMapping (kind : string)
 | EResolving (e : err)                                (* "While resolving references: " wrapper *)
 | EClassNotFound (cls : string)
+| EIncludeLoop (chain : list string) (cls : string)   (* Detected class include loop *)
 | EUnknownNode (n : string)
 | EClassPath (msg : string)                           (* abs_class_name: non-normal segment *)
 | EDeserialize (cls : string) (e : err)
